@@ -47,3 +47,60 @@ ENTRY unsigned verif_reader_read(unsigned nbuf, const unsigned* counts, unsigned
     }
     return n;
 }
+
+// ---------------------------------------------------------------- C07: the consumer side of the pipeline as a state machine
+// Script: nbuf one-node buffers, then the end-of-data marker; the pop() call number throw_at (0-based) throws instead.
+// ops[k]: 0 read(), 1 close(), 2 header().  log[k]: read -> node id / -1 end-of-data buffer / -2 io_error / -3 other exception;
+// close -> 10 / -3; header -> 20 / -2 / -3.  tail: [number of pop() calls, m_done of the read thread manager, output queue shut down, status, joins, joins made while the thread may still be blocked, thread still joinable]
+static unsigned g_throw_at, g_pops, g_joins, g_bad_joins; static io::Reader* g_reader;
+extern "C" {
+__attribute__((noinline)) void verif_model_pop_buffer_throwing(Buffer* ret, void*) {
+    const unsigned call = g_pops++;
+    if (call == g_throw_at) throw std::runtime_error{"injected failure of an upstream stage"};
+    new (ret) Buffer{};
+    if (g_si < g_ns) *ret = std::move(g_script[g_si++]);
+}
+}
+extern "C" __attribute__((noinline)) void verif_model_thread_join(std::thread* t) {
+    // model of std::thread::join() for the read thread: the thread can only end if it is not blocked for ever: when the reader is being
+    // closed (status closed) it must already have been told to stop and the output queue must already have been shut down (a producer blocked
+    // on a full queue does not look at the stop flag); at end of data (status eof) the thread has ended by itself
+    ++g_joins;
+    if (g_reader->m_status == io::Reader::status::closed && (g_reader->m_osmdata_queue.in_use() || !g_reader->m_read_thread_manager.m_done)) ++g_bad_joins;
+    t->_M_id = std::thread::id{};
+}
+ENTRY void verif_reader_states(unsigned nbuf, unsigned throw_at, const unsigned char* ops, unsigned nops, int* log, int* tail) {
+    Buffer script[4]; long id = 0;
+    for (unsigned k = 0; k < nbuf && k < 4; ++k) {
+        script[k] = Buffer{64, Buffer::auto_grow::no};
+        { builder::NodeBuilder nb{script[k]}; nb.set_id(++id); nb.set_user(""); }
+        script[k].commit();
+    }
+    g_script = script; g_ns = nbuf; g_si = 0; g_throw_at = throw_at; g_pops = 0; g_joins = 0; g_bad_joins = 0;
+    struct Raw { alignas(io::Reader) unsigned char mem[sizeof(io::Reader)]; } raw; std::memset(raw.mem, 0, sizeof(raw.mem));
+    auto* r = reinterpret_cast<io::Reader*>(raw.mem);
+    new (&r->m_back_buffers) Buffer{};
+    new (&r->m_header) io::Header{};
+    new (&r->m_osmdata_queue) io::detail::future_buffer_queue_type{4, "parser_results"};      // the real queue: close() shuts it down
+    new (&r->m_osmdata_queue_wrapper) io::detail::queue_wrapper<Buffer>{r->m_osmdata_queue};
+    r->m_status = io::Reader::status::okay;
+    r->m_read_which_entities = osm_entity_bits::all;
+    r->m_read_thread_manager.m_thread._M_id._M_thread = 1;          // a read thread is running (joinable)
+    g_reader = r;
+    for (unsigned k = 0; k < nops; ++k) {
+        try {
+            switch (ops[k]) {
+                case 0: {
+                    Buffer b = r->read();
+                    if (!b) { log[k] = -1; break; }
+                    long got = 0; for (const auto& node : b.select<Node>()) got = node.id();
+                    log[k] = static_cast<int>(got); break; }
+                case 1: r->close(); log[k] = 10; break;
+                default: { io::Header h = r->header(); (void)h; log[k] = 20; break; }
+            }
+        } catch (const osmium::io_error&) { log[k] = -2; } catch (...) { log[k] = -3; }
+    }
+    tail[0] = static_cast<int>(g_pops); tail[1] = r->m_read_thread_manager.m_done ? 1 : 0; tail[2] = r->m_osmdata_queue.in_use() ? 0 : 1; tail[3] = static_cast<int>(r->m_status); tail[4] = static_cast<int>(g_joins); tail[5] = static_cast<int>(g_bad_joins); tail[6] = r->m_read_thread_manager.m_thread.joinable() ? 1 : 0;
+    r->m_header.~Header();
+    r->m_osmdata_queue.~Queue();
+}
